@@ -535,3 +535,107 @@ mod test {
         }
     }
 }
+
+/// Tall frameworks: 64 to 90 statements; one or two of them have a conjunction or disjunction chain over (nearly)
+/// all others as condition, the rest are facts, self-supporters, copies or negations of one other statement.
+/// Every condition is read-once, so the grounded interpretation is the least fixpoint of strong Kleene
+/// evaluation (`tall_grounded`), although no condition's support can be enumerated.
+pub fn gen_tall(rng: &mut Rng) -> GenAdf {
+    let n = rng.range(64, 90);
+    let mut ac: Vec<F> = (0..n)
+        .map(|i| match rng.below(6) {
+            0 | 1 => F::Top,
+            2 => F::Bot,
+            3 => F::Atom(i),
+            4 => F::not(F::Atom(rng.below(n))),
+            _ => F::Atom(rng.below(n)),
+        })
+        .collect();
+    for _ in 0..rng.range(1, 2) {
+        let s = rng.below(n);
+        let conj = rng.bool();
+        let mut f = if conj { F::Top } else { F::Bot };
+        for a in (0..n).rev() {
+            if a != s && !rng.chance(1, 12) {
+                let lit = if rng.chance(1, 8) { F::not(F::Atom(a)) } else { F::Atom(a) };
+                f = if conj { F::and(lit, f) } else { F::or(lit, f) };
+            }
+        }
+        ac[s] = f;
+    }
+    debug_assert!(ac.iter().all(|f| f.read_once()));
+    GenAdf { n, labels: (0..n).map(|i| format!("t{}", i)).collect(), ac, family: "tall" }
+}
+
+/// grounded interpretation of a framework whose conditions are all read-once
+pub fn tall_grounded(g: &GenAdf) -> Vec<u8> {
+    assert!(g.ac.iter().all(|f| f.read_once()));
+    let mut v = vec![2u8; g.n];
+    loop {
+        let next: Vec<u8> = g.ac.iter().map(|f| f.kleene(&|i| v[i])).collect();
+        // (monotone from the all-undecided interpretation: decided values never change)
+        if next == v {
+            return v;
+        }
+        v = next;
+    }
+}
+
+#[cfg(test)]
+mod tall_tests {
+    use super::*;
+    use crate::sem::Sem;
+
+    /// strong Kleene least fixpoint = grounded interpretation by enumeration, on small read-once frameworks
+    #[test]
+    fn kleene_fixpoint_is_grounded_on_read_once_frameworks() {
+        let mut rng = Rng::new(77);
+        let mut checked = 0;
+        for _ in 0..3000 {
+            let n = rng.range(1, 7);
+            let ac: Vec<F> = (0..n)
+                .map(|_| {
+                    // a random read-once formula: random tree over a random subset of distinct atoms
+                    let mut atoms = rng.perm(n);
+                    atoms.truncate(rng.range(0, n));
+                    let mut parts: Vec<F> = atoms.into_iter().map(|a| if rng.bool() { F::Atom(a) } else { F::not(F::Atom(a)) }).collect();
+                    if parts.is_empty() {
+                        return if rng.bool() { F::Top } else { F::Bot };
+                    }
+                    while parts.len() > 1 {
+                        let b = parts.pop().unwrap();
+                        let a = parts.pop().unwrap();
+                        let f = match rng.below(5) {
+                            0 => F::and(a, b),
+                            1 => F::or(a, b),
+                            2 => F::imp(a, b),
+                            3 => F::xor(a, b),
+                            _ => F::iff(a, b),
+                        };
+                        let k = rng.below(parts.len() + 1);
+                        parts.insert(k, f);
+                    }
+                    parts.pop().unwrap()
+                })
+                .collect();
+            let g = GenAdf { n, labels: (0..n).map(|i| format!("x{}", i)).collect(), ac, family: "t" };
+            assert!(g.ac.iter().all(|f| f.read_once()));
+            let want = Sem::new(&g.ac).grounded();
+            assert_eq!(tall_grounded(&g), want, "{:?}", g.ac);
+            checked += 1;
+        }
+        assert_eq!(checked, 3000);
+    }
+
+    #[test]
+    fn tall_frameworks_are_read_once_and_tall() {
+        let mut rng = Rng::new(5);
+        for _ in 0..50 {
+            let g = gen_tall(&mut rng);
+            assert!(g.n >= 64 && g.ac.iter().all(|f| f.read_once()));
+            assert!(g.ac.iter().any(|f| f.atom_list().len() >= 50));
+            let gr = tall_grounded(&g);
+            assert_eq!(gr.len(), g.n);
+        }
+    }
+}
